@@ -105,7 +105,8 @@ def run(prop, tier, seed):
     mc_derived(chk, prop, tier)
     jobs = []
     nst = 0
-    cfgs = ["MC_core_loops.cfg"] if tier == "quick" else ["MC_core_loops.cfg", "MC_core_small.cfg", "MC_core_3n.cfg"]
+    # quick: self-loops / reciprocal pairs (instants 0..1) and multi-run timelines (instants 0..2)
+    cfgs = ["MC_core_loops.cfg", "MC_core_tiny.cfg"] if tier == "quick" else ["MC_core_loops.cfg", "MC_core_small.cfg", "MC_core_3n.cfg"]
     for cfg in cfgs:
         states, alphabet = mc_states(chk, cfg, ["InvRefines", "InvC03"])
         states = [s for s in states if s["rem"] and (prop == "C06" or True)]
@@ -113,7 +114,7 @@ def run(prop, tier, seed):
         known = list(range(1, nmax + 1))
         grid = drivers.grid_of(alphabet)
         if tier == "quick":
-            states = rng.sample(states, min(len(states), 130))
+            states = rng.sample(states, min(len(states), 90))
         for i, st in enumerate(states):
             nst += 1
             labs = IOLABS if prop in ("C09", "C10", "C11") else LABS
